@@ -22,9 +22,19 @@ def k(f):
 for f in sorted(fs, key=k):
     rows.append("| %s | %s | %s | %s | %s |" % (f.get("id", "?"), f["property"], "**open** (class `%s`)" % f.get("class") if f["status"] == "open" else "fixed", f.get("commit", "-"), cell(f["what"], 260)))
 t2 = "\n".join(rows)
+tb = []
+for p_ in sorted(glob.glob(os.path.join(ROOT, "checks", "C*.json"))):
+    c = json.load(open(p_)); pid = c["property_id"]
+    tb.append("**%s** — %s" % (pid, cell(c["manifest"]["level_note"], 1200)))
+    for x in c.get("trusted_base", []):
+        tb.append("* parameter / trusted: %s" % cell(x, 600))
+    for x in c.get("assumptions", []):
+        tb.append("* assumption: %s" % cell(x, 600))
+    tb.append("")
+t3 = "\n".join(tb)
 nfix = sum(1 for f in fs if f["status"] == "fixed"); nopen = len(fs) - nfix
 p = os.path.join(ROOT, "DESIGN.md"); s = open(p).read()
-for name, t in (("CHECKS", t1), ("FINDINGS", "%d findings fixed by `fix:` commits, %d recorded as open.\n\n%s" % (nfix, nopen, t2))):
+for name, t in (("TRUSTED", t3), ("CHECKS", t1), ("FINDINGS", "%d findings fixed by `fix:` commits, %d recorded as open.\n\n%s" % (nfix, nopen, t2))):
     b, e = "<!-- BEGIN %s -->" % name, "<!-- END %s -->" % name
     if b in s:
         s = s[:s.index(b) + len(b)] + "\n" + t + "\n" + s[s.index(e):]
